@@ -907,7 +907,8 @@ impl Ri {
                                 Some(l) => {
                                     *l.borrow_mut() = v;
                                 }
-                                None => return Err(Stop::Fail("set!-unbound-variable")),
+                                // R7RS: "it is an error" (no signalling required)
+                                None => return undet("set! of an unbound variable"),
                             }
                             k = next.clone();
                             ctl = Ctl::Ret(Val::Unspec);
